@@ -93,6 +93,47 @@ theorem quiescent_nothing_retained (evs : List TEvent) (hw : WellTimed {} evs) (
   · exact this.2.1 h4
   · exact this.2.2 h4
 
+/-- the sites of the token → message-ID table of the confirmable requests that are being written (`udp/client/conn.go`
+    `requestMessageIDs`, the repair of F42: `writeMessage` inserts the entry, its deferred `Delete` removes it, `Conn.handle` only
+    reads it) exist in today's source and every one of them is a bracket: nothing but a deferred removal in the inserting
+    function pairs with the insertion -/
+def reqMidSitesB : Bool :=
+  sites.any (fun s => s.func == "Conn.writeMessage" && s.table == "requestMessageIDs") &&
+  sites.all (fun s => s.table != "requestMessageIDs" || (s.func == "Conn.writeMessage" && classify s.removal == some .bracket))
+
+theorem request_message_ids_bracketed : reqMidSitesB = true := by decide +kernel
+
+/-- **request_message_ids_never_left_behind.** In every reachable state of every well-timed history an entry of
+    `requestMessageIDs` belongs to a `writeMessage` that has not returned — with success, with the error of its context, of the
+    connection or of the write: `finish` removes the entry whatever its outcome flag.  (When a response acknowledges the request
+    the message-ID continuation is consumed; the woken `writeMessage` returns and takes this entry with it.) -/
+theorem request_message_ids_never_left_behind (evs : List TEvent) (hw : WellTimed {} evs) (e : Entry)
+    (he : e ∈ (trun evs).entries) (s : Generated.TableShape.Insertion) (hs : sites[e.site]? = some s)
+    (ht : s.table = "requestMessageIDs") : e.owner ∉ (trun evs).ended := by
+  apply bracket_entries_have_active_owner evs hw e he
+  have h := request_message_ids_bracketed
+  unfold reqMidSitesB at h
+  rw [Bool.and_eq_true, List.all_eq_true] at h
+  have hm : s ∈ sites := List.mem_of_getElem? hs
+  have h2 := h.2 s hm
+  simp only [ht, bne_self_eq_false, Bool.false_or, Bool.and_eq_true, beq_iff_eq] at h2
+  unfold siteCls
+  rw [hs]
+  simp only [Option.bind_some, h2.2]
+  rfl
+
+/-- … so the table is empty whenever every `writeMessage` has returned -/
+theorem request_message_ids_empty_when_idle (evs : List TEvent) (hw : WellTimed {} evs)
+    (hidle : ∀ e ∈ (trun evs).entries, e.owner ∈ (trun evs).ended) : tableSize (trun evs) "requestMessageIDs" = 0 := by
+  unfold tableSize
+  rw [List.length_eq_zero_iff, List.filter_eq_nil_iff]
+  intro e he hx
+  cases hs : sites[e.site]? with
+  | none => rw [hs] at hx; cases hx
+  | some s =>
+    rw [hs] at hx
+    exact request_message_ids_never_left_behind evs hw e he s hs (by simpa using hx) (hidle e he)
+
 /-- the token-continuation site of `doInternal` in today's source -/
 def lateTok : Nat := (sites.findIdx? (fun s => s.func == "Conn.doInternal" && s.table == "tokenHandlerContainer")).getD 0
 /-- registered, returned (entry removed by the deferred delete), then inserted again on behalf of the ended call -/
@@ -167,6 +208,19 @@ example : (trun [
     .insert (siteOf "Handler.NewObservation" "observations") 9 3 0, .finish 3 true, .tick 1000]).entries.length = 1 := by decide +kernel
 example : (trun [
     .insert (siteOf "Handler.NewObservation" "observations") 9 3 0, .finish 3 false, .tick 1000]).entries = [] := by decide +kernel
+-- a confirmable request written through `WriteMessage`: message-ID continuation and token → message-ID entry; the response
+-- acknowledges (continuation consumed), `writeMessage` returns; the same with an error return (context ended while waiting)
+example : (trun [
+    .insert (siteOf "Conn.prepareWriteMessage" "midHandlerContainer") 101 1 0,
+    .insert (siteOf "Conn.writeMessage" "requestMessageIDs") 11 1 0,
+    .consume (siteOf "Conn.prepareWriteMessage" "midHandlerContainer") 101]).entries.length = 1 := by decide +kernel
+example : (trun [
+    .insert (siteOf "Conn.prepareWriteMessage" "midHandlerContainer") 101 1 0,
+    .insert (siteOf "Conn.writeMessage" "requestMessageIDs") 11 1 0,
+    .consume (siteOf "Conn.prepareWriteMessage" "midHandlerContainer") 101, .finish 1 true]).entries = [] := by decide +kernel
+example : (trun [
+    .insert (siteOf "Conn.prepareWriteMessage" "midHandlerContainer") 101 1 0,
+    .insert (siteOf "Conn.writeMessage" "requestMessageIDs") 11 1 0, .finish 1 false]).entries = [] := by decide +kernel
 example : (lrun (fun _ => none) [.lock 5, .lock 5, .unlock 5, .lock 6, .unlock 5, .unlock 6]).map (fun m => (m 5, m 6)) = some (none, none) := by decide
 example : ((([QEvent.acquire 1, .acquire 1, .acquire 1, .cancelWaiter 1, .release 1, .release 1] : List QEvent).foldl (qstep 1) (fun _ => none)) 1) = none := by decide
 
@@ -180,6 +234,9 @@ open CoapVerif.Props.C13
 #print axioms bracket_entries_have_active_owner
 #print axioms quiescent_empty
 #print axioms quiescent_nothing_retained
+#print axioms request_message_ids_bracketed
+#print axioms request_message_ids_never_left_behind
+#print axioms request_message_ids_empty_when_idle
 #print axioms late_insert_leaks
 #print axioms handle_sites_agree
 #print axioms mutexmap_refcount
